@@ -62,6 +62,12 @@ CHECKS = {
         note="Trusts SQLite's locking and journalling; 2..3 connections explored exhaustively, the '16 processes' end of the quantifier is covered by commutation of whole transactions only; process kill, not power loss.",
         ref="DESIGN.md section 4 C09",
     ),
+    "C17": dict(
+        technique="exhaustive enumeration of every library .py file (and symlinked / near-miss spellings) against an independent path oracle + explicit enumeration of filter-cache call histories + all 64 subset filters and a real `monkeytype run` (bounded exhaustive, E1/E3)",
+        text="Every .py file under the installed interpreter's three library roots (thorough: every code object really compiled from them), frozen/builtin code, synthetic file names, user files reached directly, through symlinks and through look-alike paths, allow-lists of 0..3 names, every ordered pair/triple of filter calls on equal code objects from files with different verdicts starting from a cleared cache, a real `monkeytype run` of a script (its functions are __main__) and all 64 custom subset filters.",
+        note="Enumerates the file universe of this interpreter only; allow-list names are package/module names below the import root.",
+        ref="DESIGN.md section 4 C17",
+    ),
 }
 
 NOT_YET = {}
